@@ -1,6 +1,7 @@
 from . import V
 
 D = 'basic_robotics/utilities/disp.py'
+K = 'basic_robotics/general/faser_screw.py'
 VARIANTS = [
     V('print-differs-from-return', D, ("if not noprint:\n        print(matstr)", "if not noprint:\n        print(matstr[:-1])"), 'fire', 'disp'),
     V('nd-dropped-3d', D, ("strr += dispa(matrix[i,], nd = nd, new = False)\n        strr += (t_bl + t_bar + \"═ \" + title + \" END ═\" + t_bar + \"╝\\n\")\n\n    #Prints 4D", "strr += dispa(matrix[i,], new = False)\n        strr += (t_bl + t_bar + \"═ \" + title + \" END ═\" + t_bar + \"╝\\n\")\n\n    #Prints 4D"), 'fire', 'dims==3'),
@@ -19,4 +20,7 @@ VARIANTS = [
     V('latex-round-on-raw-element', D, ("val = matrix[i, j]\n            if not hasattr(val, '__round__'):\n                #numpy.bool has no __round__\n                val = float(val)\n            strr+= str(round(val, nd))", "strr+= str(round(matrix[i, j], nd))"), 'fire', 'R20.5'),
     V('benign-latex-float-conversion-first', D, ("val = matrix[i, j]\n            if not hasattr(val, '__round__'):\n                #numpy.bool has no __round__\n                val = float(val)\n            strr+= str(round(val, nd))", "strr+= str(round(float(matrix[i, j]), nd))"), 'silent'),
     V('disp-snaps-small-values-before-rendering', D, ("if mode == 0:", "if hasattr(matrix, 'dtype') and matrix.dtype.kind == 'f':\n        matrix = matrix * (abs(matrix) >= 10**-nd)\n    if mode == 0:"), 'fire', 'R20.1'),
+    V('screw-payload-row-layout-kept', K, ('if not data.shape == ((6,1)):\n            self.data = data.reshape((6,1))\n        else:\n            self.data = data', 'if data.ndim == 1:\n            data = data.reshape((6,1))\n        self.data = data'), 'fire', 'R20.7'),
+    V('benign-screw-payload-always-reshaped', K, ('if not data.shape == ((6,1)):\n            self.data = data.reshape((6,1))\n        else:\n            self.data = data', 'self.data = np.reshape(data, (6, 1))'), 'silent'),
+    V('benign-screw-payload-reshaped-unless-column', K, ('if not data.shape == ((6,1)):\n            self.data = data.reshape((6,1))\n        else:\n            self.data = data', 'if data.shape != (6, 1):\n            data = data.reshape((6, 1))\n        self.data = data'), 'silent'),
 ]
